@@ -155,6 +155,32 @@ theorem replay_conflict_free :
       isMark ((flat f').getD i 0) = true ∨ (flat f').getD i 0 = (rebuild script (flat f) ins)[i] :=
   @Bd.replay_conflict_free
 
+/-- the stamp of a merge-mode replay carries the mark, whatever author it packs -/
+theorem pack_mark : ∀ (pn author : Nat), pack pn author Bd.MARK % (Fu.MARK + 1) = Fu.MARK := @Bd.pack_mark
+
+/-- the same step on the multi-branch model (`doEdit`, which `kdag` compares with `handleModification` of the real
+`BurndownAnalysis` in merge mode): the edit of a tracked file on branch `b` during the replay of a merge commit reports
+nothing and leaves on `b`, under the file's name, a copy that is conflict-free with respect to `rebuild script (flat f) ins` -/
+theorem doEdit_merge_conflict_free :
+    ∀ (w w' : W) (b author name oldL newL : Nat) (script : List (EK × Nat)) (f : List Node)
+    (ht : pack w.pn author Bd.MARK < END) (hwf : WF2 f)
+    (ins : List Nat) (hc : consumed script = (flat f).length) (hi : insCount script = ins.length)
+    (h : doEdit true w b author Bd.MARK name oldL newL script f = .ok w'),
+    w'.evs = w.evs ∧ ∃ f', brFile (w'.br b) name = some f' ∧ WF2 f' ∧
+      (flat f').length = (rebuild script (flat f) ins).length ∧
+      ∀ i (hi : i < (rebuild script (flat f) ins).length),
+        isMark ((flat f').getD i 0) = true ∨ (flat f').getD i 0 = (rebuild script (flat f) ins)[i] :=
+  @Bd.doEdit_merge_conflict_free
+
+/-- a file that the merge commit has and this parent has not: the merge-mode insertion reports nothing and leaves a copy made
+of marks only - conflict-free with respect to whatever the true array of that length is -/
+theorem doInsert_merge_conflict_free :
+    ∀ (w w' : W) (b author name lines : Nat)
+    (h : doInsert true true w b author Bd.MARK name lines = .ok w'),
+    w'.evs = w.evs ∧ ∃ f', brFile (w'.br b) name = some f' ∧ WF2 f' ∧ (flat f').length = lines ∧
+      ∀ v ∈ flat f', isMark v = true :=
+  @Bd.doInsert_merge_conflict_free
+
 /-- **one file through one clean merge**: every branch copy is the merge-mode replay of the merge commit's script against
 that parent's true array, all scripts rebuilding the same true array `truth` of the merged version; `truth` carries no
 mark; the lines no parent knows are lines of the merge commit, born at the merge value `day`.  Then `File.Merge` installs
